@@ -6797,6 +6797,10 @@ fn eval_expr(
                 let mut items: rpds::HashTrieMap<String, Value> = rpds::HashTrieMap::new();
                 let mut value_type = Type::no_value();
 
+                // Everything popped so far, so we can put it back
+                // if a key is not a string.
+                let mut popped_values: Vec<Value> = vec![];
+
                 for kv in item_exprs {
                     // The evaluated value of key-value pair.
                     let value_value = env
@@ -6811,11 +6815,13 @@ fn eval_expr(
                         .pop_value()
                         .expect("Value stack should have sufficient items for the dict literal");
 
+                    popped_values.push(value_value.clone());
+                    popped_values.push(key_value.clone());
+
                     let key_str = check_string(
                         &key_value,
                         &kv.key.position,
-                        // TODO: set saved_values properly here.
-                        vec![],
+                        popped_values.iter().rev().cloned().collect(),
                         env,
                     )?;
 
